@@ -1915,6 +1915,164 @@ def _thread_iteration(stmts, rest, budget):
     return list(stmts) + copy.deepcopy(rest)
 
 
+def _const_table(e):
+    """a literal tuple whose elements are constants or tuples of constants (an immutable table)"""
+    if isinstance(e, ast.Constant):
+        return True
+    if isinstance(e, ast.UnaryOp) and isinstance(e.operand, ast.Constant):
+        return True
+    if isinstance(e, ast.Tuple) and e.elts:
+        return all(_const_table(x) for x in e.elts)
+    return False
+
+
+def _pure_test_expr(e):
+    """a comparison / boolean combination over plain names and constants"""
+    if isinstance(e, (ast.Name, ast.Constant)):
+        return True
+    if isinstance(e, ast.Compare):
+        return _pure_test_expr(e.left) and all(_pure_test_expr(c) for c in e.comparators)
+    if isinstance(e, ast.BoolOp):
+        return all(_pure_test_expr(v) for v in e.values)
+    if isinstance(e, ast.UnaryOp) and isinstance(e.op, ast.Not):
+        return _pure_test_expr(e.operand)
+    return False
+
+
+def inline_bool_temps(tree):
+    """`flag = a == "YES"` bound exactly once in a function to a comparison over plain local names that are not stored again
+    after it (nor anywhere in a loop that contains it): the uses of `flag` that follow become the comparison itself, so that
+    tests written through a named flag read like the inline tests the rules look for"""
+    n = [0]
+    for f in ast.walk(tree):
+        if not isinstance(f, (ast.FunctionDef, ast.AsyncFunctionDef)):
+            continue
+        order = {}
+        for k, x in enumerate(_preorder(f)):
+            order[id(x)] = k
+        stores = {}
+        bad = set()
+        nested = set()
+        for x in _preorder(f):
+            if isinstance(x, ast.Name) and isinstance(x.ctx, (ast.Store, ast.Del)):
+                stores.setdefault(x.id, []).append(x)
+            elif isinstance(x, (ast.Global, ast.Nonlocal)):
+                bad.update(x.names)
+            elif x is not f and isinstance(x, (ast.FunctionDef, ast.AsyncFunctionDef, ast.Lambda)):
+                for y in ast.walk(x):
+                    if isinstance(y, ast.Name):
+                        nested.add(y.id)
+        params = {a.arg for a in ast.walk(f.args) if isinstance(a, ast.arg)}
+        # enclosing loops of every statement
+        loops_of = {}
+
+        def mark(stmts, loops):
+            for st in stmts:
+                loops_of[id(st)] = loops
+                inner = loops + [st] if isinstance(st, (ast.For, ast.While)) else loops
+                if isinstance(st, (ast.FunctionDef, ast.AsyncFunctionDef, ast.ClassDef)):
+                    continue
+                for fld in ("body", "orelse", "finalbody"):
+                    sub = getattr(st, fld, None)
+                    if isinstance(sub, list) and sub and isinstance(sub[0], ast.stmt):
+                        mark(sub, inner if fld == "body" else loops)
+                for h in getattr(st, "handlers", []) or []:
+                    mark(h.body, loops)
+        mark(f.body, [])
+        for st in list(_preorder(f)):
+            if not (isinstance(st, ast.Assign) and len(st.targets) == 1 and isinstance(st.targets[0], ast.Name)):
+                continue
+            name = st.targets[0].id
+            if id(st) not in loops_of or len(stores.get(name, ())) != 1 or name in bad or name in nested or name in params:
+                continue
+            v = st.value
+            if not isinstance(v, (ast.Compare, ast.BoolOp, ast.UnaryOp)) or not _pure_test_expr(v):
+                continue
+            ops = {x.id for x in ast.walk(v) if isinstance(x, ast.Name)}
+            if name in ops or ops & bad or ops & nested:
+                continue
+            here = order[id(st)]
+            loops = loops_of[id(st)]
+            ok = True
+            for o in ops:
+                for w in stores.get(o, ()):
+                    if order[id(w)] > here:
+                        ok = False
+                    for lp in loops:
+                        if order[id(lp)] <= order[id(w)] and any(w is y for y in ast.walk(lp)):
+                            ok = False
+            if not ok:
+                continue
+            uses = [x for x in _preorder(f) if isinstance(x, ast.Name) and x.id == name and isinstance(x.ctx, ast.Load)]
+            if not uses or any(order[id(u)] < here for u in uses):
+                continue
+
+            class R(ast.NodeTransformer):
+                def visit_Name(self, node):
+                    if node.id == name and isinstance(node.ctx, ast.Load):
+                        return ast.copy_location(copy.deepcopy(v), node)
+                    return node
+            for top in f.body:
+                R().visit(top)
+            st.value = ast.copy_location(ast.Constant(value=None), st.value)
+            st.targets[0].id = "__dead_" + name
+            n[0] += 1
+    return n[0]
+
+
+def _preorder(node):
+    stack = [node]
+    while stack:
+        x = stack.pop()
+        yield x
+        stack.extend(reversed(list(ast.iter_child_nodes(x))))
+
+
+def propagate_local_tables(tree):
+    """`table = (("V", "VERS"), ("W", "NULL"))` bound exactly once in a function to an immutable literal table and iterated by a
+    `for` statement later in the same or a nested block: the literal is put into the `for` header (so the loop can be unrolled)"""
+    n = [0]
+    for f in ast.walk(tree):
+        if not isinstance(f, (ast.FunctionDef, ast.AsyncFunctionDef)):
+            continue
+        stores = {}
+        bad = set()
+        for x in ast.walk(f):
+            if isinstance(x, ast.Name) and isinstance(x.ctx, (ast.Store, ast.Del)):
+                stores[x.id] = stores.get(x.id, 0) + 1
+            elif isinstance(x, (ast.Global, ast.Nonlocal)):
+                bad.update(x.names)
+            elif isinstance(x, ast.arg):
+                bad.add(x.arg)
+        cands = {}
+        for x in ast.walk(f):
+            if isinstance(x, ast.Assign) and len(x.targets) == 1 and isinstance(x.targets[0], ast.Name) and isinstance(x.value, ast.Tuple) \
+                    and _const_table(x.value) and stores.get(x.targets[0].id) == 1 and x.targets[0].id not in bad:
+                cands[x.targets[0].id] = x
+        if not cands:
+            continue
+
+        def block(stmts, env):
+            env = dict(env)
+            for st in stmts:
+                if isinstance(st, (ast.FunctionDef, ast.AsyncFunctionDef, ast.ClassDef)):
+                    continue
+                if isinstance(st, ast.For) and isinstance(st.iter, ast.Name) and st.iter.id in env:
+                    st.iter = ast.copy_location(copy.deepcopy(env[st.iter.id]), st.iter)
+                    n[0] += 1
+                for fld in ("body", "orelse", "finalbody"):
+                    sub = getattr(st, fld, None)
+                    if isinstance(sub, list) and sub and isinstance(sub[0], ast.stmt):
+                        block(sub, env)
+                for h in getattr(st, "handlers", []) or []:
+                    block(h.body, env)
+                if isinstance(st, ast.Assign) and len(st.targets) == 1 and isinstance(st.targets[0], ast.Name) \
+                        and cands.get(st.targets[0].id) is st:
+                    env[st.targets[0].id] = st.value
+        block(f.body, {})
+    return n[0]
+
+
 def unroll_constant_loops(tree, limit=8):
     """`for x in ("a", "b", "c"): BODY`, `for k, v in (("a", x), ("b", y)): BODY` and `for k, v in zip((..), (..)): BODY` over
     short literal sequences of simple elements, without break/continue/else: replaced by the unrolled bodies with the loop
@@ -2357,6 +2515,182 @@ def propagate_dict_copies(tree):
     if n:
         ast.fix_missing_locations(tree)
     return n
+
+
+def _namedtuple_types(tree):
+    """module-level `T = [collections.]namedtuple("T", <field names>, defaults=<constants>)` -> {T: (fields, {field: default})}"""
+    types = {}
+    for st in tree.body:
+        if not (isinstance(st, ast.Assign) and len(st.targets) == 1 and isinstance(st.targets[0], ast.Name) and isinstance(st.value, ast.Call)):
+            continue
+        c = st.value
+        fname = c.func.attr if isinstance(c.func, ast.Attribute) else c.func.id if isinstance(c.func, ast.Name) else None
+        if fname != "namedtuple" or len(c.args) < 2 or any(k.arg not in ("defaults",) for k in c.keywords):
+            continue
+        fa = c.args[1]
+        if isinstance(fa, ast.Constant) and isinstance(fa.value, str):
+            fields = fa.value.replace(",", " ").split()
+        elif isinstance(fa, (ast.List, ast.Tuple)) and all(isinstance(e, ast.Constant) and isinstance(e.value, str) for e in fa.elts):
+            fields = [e.value for e in fa.elts]
+        else:
+            continue
+        if not fields or len(set(fields)) != len(fields) or not all(f.isidentifier() and not f.startswith("_") for f in fields):
+            continue
+        defaults = {}
+        dk = next((k.value for k in c.keywords if k.arg == "defaults"), None)
+        if dk is not None:
+            if not (isinstance(dk, (ast.Tuple, ast.List)) and len(dk.elts) <= len(fields) and all(_const_table(e) for e in dk.elts)):
+                continue
+            for f_, d_ in zip(fields[len(fields) - len(dk.elts):], dk.elts):
+                defaults[f_] = d_
+        types[st.targets[0].id] = (fields, defaults)
+    return types
+
+
+def scalarize_local_records(tree):
+    """a local variable that only ever holds a record of a module-level namedtuple type - built by `T(..)`, updated by
+    `r = r._replace(k=v)`, read as `r.field` - is a bundle of local variables: `r = T(a=x)` becomes `r__a = x; r__b = <default>`,
+    `r = r._replace(a=y)` becomes `r__a = y` and `r.a` becomes `r__a`.  Not applied when a right-hand side reads a field that an
+    earlier assignment of the same group has just written (the tuple is built before it is bound)."""
+    types = _namedtuple_types(tree)
+    if not types:
+        return 0
+    n = 0
+    for fn in ast.walk(tree):
+        if not isinstance(fn, (ast.FunctionDef, ast.AsyncFunctionDef)):
+            continue
+        if any(isinstance(x, (ast.Global, ast.Nonlocal)) for x in ast.walk(fn)):
+            continue
+        params = {a.arg for a in ast.walk(fn.args) if isinstance(a, ast.arg)}
+        groups = {}     # name -> list of (assign stmt, [(field, value)])
+        tname = {}
+        rejected = set()
+        for st in ast.walk(fn):
+            if not isinstance(st, ast.Assign):
+                continue
+            for t in st.targets:
+                for x in ast.walk(t):
+                    if isinstance(x, ast.Name) and isinstance(x.ctx, ast.Store) and (len(st.targets) != 1 or x is not st.targets[0]):
+                        rejected.add(x.id)
+            if len(st.targets) != 1 or not isinstance(st.targets[0], ast.Name) or not isinstance(st.value, ast.Call):
+                continue
+            name = st.targets[0].id
+            c = st.value
+            if isinstance(c.func, ast.Name) and c.func.id in types:
+                fields, defaults = types[c.func.id]
+                if any(isinstance(a, ast.Starred) for a in c.args) or any(k.arg is None for k in c.keywords) or len(c.args) > len(fields):
+                    rejected.add(name)
+                    continue
+                given = dict(zip(fields, c.args))
+                okk = True
+                for k in c.keywords:
+                    if k.arg not in fields or k.arg in given:
+                        okk = False
+                    given[k.arg] = k.value
+                if not okk or any(f_ not in given and f_ not in defaults for f_ in fields):
+                    rejected.add(name)
+                    continue
+                if tname.setdefault(name, c.func.id) != c.func.id:
+                    rejected.add(name)
+                    continue
+                groups.setdefault(name, []).append((st, [(f_, given.get(f_, defaults.get(f_))) for f_ in fields]))
+            elif isinstance(c.func, ast.Attribute) and c.func.attr == "_replace" and isinstance(c.func.value, ast.Name) and c.func.value.id == name \
+                    and not c.args and c.keywords and all(k.arg for k in c.keywords):
+                groups.setdefault(name, []).append((st, [(k.arg, k.value) for k in c.keywords]))
+        for name, defs in groups.items():
+            if name in rejected or name in params or name not in tname:
+                continue
+            fields, _d = types[tname[name]]
+            if any(f_ not in fields for _st, pairs in defs for f_, _v in pairs):
+                continue
+            def_stmts = {id(st) for st, _ in defs}
+            names = [x for x in ast.walk(fn) if isinstance(x, ast.Name) and x.id == name]
+            stores = [x for x in names if isinstance(x.ctx, (ast.Store, ast.Del))]
+            if len(stores) != len(defs):
+                continue
+            attrs = [x for x in ast.walk(fn) if isinstance(x, ast.Attribute) and isinstance(x.value, ast.Name) and x.value.id == name
+                     and isinstance(x.ctx, ast.Load) and (x.attr in fields or x.attr == "_replace")]
+            repl = [x for x in attrs if x.attr == "_replace"]
+            if len(repl) != sum(1 for st, _ in defs if isinstance(st.value.func, ast.Attribute)):
+                continue
+            if len(names) != len(stores) + len(attrs):
+                continue
+            if any(isinstance(x, (ast.FunctionDef, ast.AsyncFunctionDef, ast.Lambda)) and x is not fn
+                   and any(isinstance(y, ast.Name) and y.id == name for y in ast.walk(x)) for x in ast.walk(fn)):
+                continue
+            if any(isinstance(x, ast.Name) and x.id.startswith(name + "__") for x in ast.walk(fn)):
+                continue
+            hazard = False
+            for st, pairs in defs:
+                written = set()
+                for f_, v in pairs:
+                    reads = {x.attr for x in ast.walk(v) if isinstance(x, ast.Attribute) and isinstance(x.value, ast.Name) and x.value.id == name}
+                    if reads & written:
+                        hazard = True
+                    written.add(f_)
+            if hazard:
+                continue
+
+            class R(ast.NodeTransformer):
+                def visit_Attribute(self, node):
+                    self.generic_visit(node)
+                    if isinstance(node.value, ast.Name) and node.value.id == name and node.attr in fields and isinstance(node.ctx, ast.Load):
+                        return ast.copy_location(ast.Name(id="%s__%s" % (name, node.attr), ctx=ast.Load()), node)
+                    return node
+            expansions = {}
+            for st, pairs in defs:
+                out = []
+                for f_, v in pairs:
+                    a = ast.Assign(targets=[ast.Name(id="%s__%s" % (name, f_), ctx=ast.Store())], value=R().visit(copy.deepcopy(v)))
+                    ast.copy_location(a, st)
+                    ast.fix_missing_locations(a)
+                    out.append(a)
+                expansions[id(st)] = out
+
+            def blockfn(stmts):
+                out = []
+                for st in stmts:
+                    if id(st) in expansions:
+                        out.extend(expansions[id(st)])
+                    else:
+                        out.append(st)
+                return out
+            _map_blocks(fn, blockfn)
+            for top in fn.body:
+                R().visit(top)
+            n += 1
+    return n
+
+
+def drop_self_assignments(tree):
+    """`x = x` (left behind when a record field or dict entry keeps its value on one branch) is removed"""
+    n = [0]
+
+    def is_self(st):
+        return isinstance(st, ast.Assign) and len(st.targets) == 1 and isinstance(st.targets[0], ast.Name) \
+            and isinstance(st.value, ast.Name) and st.value.id == st.targets[0].id
+
+    def fn(stmts):
+        out = [st for st in stmts if not is_self(st)]
+        n[0] += len(stmts) - len(out)
+        return out
+
+    def rec(node):
+        for fld in ("body", "orelse", "finalbody"):
+            blk = getattr(node, fld, None)
+            if isinstance(blk, list) and blk and isinstance(blk[0], ast.stmt):
+                for st in blk:
+                    rec(st)
+                new_blk = fn(blk)
+                if not new_blk and fld == "body":
+                    new_blk = [ast.copy_location(ast.Pass(), blk[0])]
+                setattr(node, fld, new_blk)
+        for h in getattr(node, "handlers", []) or []:
+            for st in h.body:
+                rec(st)
+            h.body = fn(h.body) or [ast.copy_location(ast.Pass(), h.body[0])]
+    rec(tree)
+    return n[0]
 
 
 def scalarize_local_dicts(tree):
@@ -2853,6 +3187,7 @@ def normalize(tree, extern=None, modname=None):
     stats = {"match": desugar_match(tree), "suppress": lower_suppress(tree), "walrus": lower_walrus_if(tree) + lower_walrus_while(tree)}
     stats["kwargs_dicts"] = expand_kwargs_dicts(tree)
     stats["partials"] = expand_partials(tree)
+    stats["records"] = scalarize_local_records(tree)
     stats.update({"constants": propagate_constants(tree, modname), "inlined": 0, "resugared": resugar_loops(tree)})
     stats["builtin_idioms"] = lower_builtin_idioms(tree)
     stats["writerows"] = lower_writerows(tree)
@@ -2869,11 +3204,14 @@ def normalize(tree, extern=None, modname=None):
     stats["found_flag"] += resugar_found_flag(tree)      # find-first helpers that were just expanded
     stats["expr_inlined"] = inline_expression_helpers(tree, extern)
     stats["aliases"] = propagate_aliases(tree)
+    stats["local_tables"] = propagate_local_tables(tree)
     stats["unrolled"] = unroll_constant_loops(tree)
     if stats["unrolled"]:
         stats["live_ranges"] = split_live_ranges(tree)
         stats["aliases"] += propagate_aliases(tree)
     stats["local_dicts"] = scalarize_local_dicts(tree)
+    stats["self_assign"] = drop_self_assignments(tree)
+    stats["bool_temps"] = inline_bool_temps(tree)
     stats["getsetattr"] = lower_getsetattr(tree)
     stats["ifexp"] = lower_ifexp(tree)
     stats["sentinels"] = propagate_sentinels(tree)
